@@ -424,13 +424,17 @@ func (e *entryValueMap) tryExpungeLocked() (isExpunged bool) {
 }
 
 func (m *ValueMap) ToJSON() ([]byte, error) {
+	return m.toJSONVisit(map[*VMValue]bool{}, &jsonVisitor{onPath: map[any]bool{}})
+}
+
+// toJSONVisit 与 ToJSON 相同，但沿用调用者的循环引用检测状态(否则经过字典的循环引用会无限递归)
+func (m *ValueMap) toJSONVisit(save map[*VMValue]bool, vis *jsonVisitor) ([]byte, error) {
 	var lst [][]byte
 	var err error
-	save := map[*VMValue]bool{}
 	m.Range(func(key string, value *VMValue) bool {
 		var jsonKey []byte
 		var jsonData []byte
-		jsonData, err = value.ToJSONRaw(save)
+		jsonData, err = value.toJSONVisit(save, vis)
 		if err != nil {
 			return false
 		}
